@@ -413,10 +413,17 @@ def explore(h, nproc=None, **_ignored):
         p.start()
     got = []
     import queue as _q
+    limit = float(os.environ.get("VF_EXPLORE_TIMEOUT", "3600"))
     while len(got) < nproc:
         try:
             got.append(results.get(timeout=5))
         except _q.Empty:
+            if time.perf_counter() - t0 > limit:
+                stats["errors"].append("exploration exceeded %.0f s (a worker is stuck?)" % limit)
+                for p in procs:
+                    if p.is_alive():
+                        p.terminate()
+                break
             dead = [p for p in procs if not p.is_alive() and p.exitcode not in (0, None)]
             if dead:
                 stats["errors"].append("worker process died with exit code %s" % dead[0].exitcode)
